@@ -162,6 +162,8 @@ class VK:
                 continue
             t0 = time.time()
             a, b = co(lhs_a[idx]), co(rhs_a[idx])
+            if ring.FROZEN and a is not None and b is not None:
+                a, b = ring.unfreeze(a), ring.unfreeze(b)  # stop-gradient copies carry the value of their originals
             if a is None or b is None:
                 s._record(name, "error", "ring", t0, f"non-ring value {lhs_a[idx]!r} / {rhs_a[idx]!r}", fam)
                 continue
